@@ -463,6 +463,20 @@ async fn on_commitment_revocation(
     let proxy = plugin.state().lock().unwrap().proxy.clone();
 
     for (tower_id, net_addr, status) in towers {
+        // A commitment revocation may be notified more than once. If this tower has already acknowledged the appointment
+        // (we hold its signed receipt) there is nothing left to do, whatever state the tower is in now.
+        if plugin
+            .state()
+            .lock()
+            .unwrap()
+            .dbm
+            .load_appointment_receipt(tower_id, locator)
+            .is_some()
+        {
+            log::debug!("{tower_id} has already accepted {locator}");
+            continue;
+        }
+
         if status.is_reachable() {
             match http::add_appointment(tower_id, &net_addr, &proxy, &appointment, &signature).await
             {
